@@ -5,13 +5,15 @@ record / replay path rules of the local runner (R3); replay and totality of exce
 reconstruction (R4); forget addresses the same key (R5); frame rule for the returned value (R6).
 """
 import ast
+import copy
 
 from .. import astutil as A
-from ..fa import FA
+from ..fa import FA, log_call
 from ..loader import AnalysisError
 from .valeq import check_typed_identity, check_json_bytes, check_enum_distinct
 from .c16 import sibling_reference_sites
-from .ladders import extract_ladder, check_ladder_order, repo_subclass_pairs, handler_ladder
+from .ladders import (extract_ladder, check_ladder_order, repo_subclass_pairs, handler_ladder, dispatch_model, _bound_value, _literal_seq,
+                      table_entries, _Unsupported, subst, sequence_elements, resolve_callee, handler_type_names, comprehension_elements, fold_lookups)
 from . import partition_model as PM
 
 RL = "runner_local.memento_run_local"
@@ -94,7 +96,7 @@ def certain(d):
 
 
 class Sym:
-    def __init__(self, fa, watch=None, cut=None, stop=None, tuples=None, returns=None, rewrite=None, truth=None, cap=40000):
+    def __init__(self, fa, watch=None, cut=None, stop=None, tuples=None, returns=None, rewrite=None, truth=None, cap=40000, records=None):
         """watch(text, expr) -> bool : literals to remember along a path (also used to prune contradictions)
         cut(dnf) -> bool            : edges not to follow
         stop(literals) -> bool      : path classes not to continue
@@ -108,6 +110,7 @@ class Sym:
         self.cut = cut
         self.stop = stop
         self.tuples = tuples or {}
+        self.records = records or {}   # {class: ([constructor parameters], {field: expression over them})}
         self.rets = returns or {}
         self.rewrite = rewrite
         self.xtruth = truth
@@ -115,6 +118,30 @@ class Sym:
         self._tok = {}
         self._produced = {}
         self.states = {}
+        # module-level names bound once to a record built from constants (`_NOT_FOUND = Result(None, False)`) stand for it
+        self.consts = {}
+        for nm_, v_ in (getattr(fa.fi.module, "assigns", {}) or {}).items():
+            if isinstance(v_, ast.Call) and A.call_attr(v_) in self.tuples and not any(isinstance(a_, ast.Starred) for a_ in v_.args) \
+                    and all(isinstance(a_, ast.Constant) for a_ in list(v_.args) + [k_.value for k_ in v_.keywords]) \
+                    and all(k_.arg for k_ in v_.keywords) and not fa.df.is_local(nm_):
+                self.consts[nm_] = v_
+        # `with contextlib.suppress(...)`: a statement of the body that can raise may also continue after the with statement,
+        # with the store as it was before that statement (the graph has no such edge); the path is marked
+        self.suppress = {}
+        for w_ in A.all_stmts(fa.node):
+            if isinstance(w_, (ast.With, ast.AsyncWith)) and any(isinstance(i_.context_expr, ast.Call) and A.call_attr(i_.context_expr) == "suppress" for i_ in w_.items):
+                inside = set()
+                for st_ in w_.body:
+                    for x_ in [st_] + [y_ for y_ in ast.walk(st_) if isinstance(y_, ast.stmt)]:
+                        inside |= set(fa.nodes(x_))
+                cont = {d_ for n_ in inside for (d_, l_) in self.cfg.succ[n_] if d_ not in inside and l_ != "exc" and d_ != self.cfg.exit
+                        and self.cfg.node(d_).ast is not None and not isinstance(self.cfg.node(n_).ast, (ast.Return, ast.Raise))}
+                for n_ in inside:
+                    self.suppress.setdefault(n_, []).append((w_, sorted(cont)))
+        # module-level sentinels (`_MISS = object()`): identical to nothing but themselves
+        self.sentinels = {nm_ for nm_, v_ in (getattr(fa.fi.module, "assigns", {}) or {}).items()
+                          if isinstance(v_, ast.Call) and isinstance(v_.func, ast.Name) and v_.func.id == "object" and not v_.args and not v_.keywords
+                          and not fa.df.is_local(nm_)}
         self._explore()
 
     # ---- expressions ---------------------------------------------------------------------------
@@ -131,6 +158,23 @@ class Sym:
     def simplify(self, n):
         if isinstance(n, ast.Call) and isinstance(n.func, ast.Name) and n.func.id == "cast" and len(n.args) == 2:
             return n.args[1]
+        if isinstance(n, ast.Subscript) and isinstance(n.value, (ast.Tuple, ast.List)) and isinstance(n.slice, ast.Constant) \
+                and isinstance(n.slice.value, int) and -len(n.value.elts) <= n.slice.value < len(n.value.elts) \
+                and not any(isinstance(x, ast.Starred) for x in n.value.elts):
+            return n.value.elts[n.slice.value]  # (a, b)[0]
+        if isinstance(n, ast.Attribute) and isinstance(n.value, ast.Call) and A.call_attr(n.value) in self.records \
+                and not any(isinstance(a, ast.Starred) for a in n.value.args) and all(k.arg for k in n.value.keywords):
+            # a field of a freshly constructed plain object is what its __init__ stored there
+            params, fieldmap = self.records[A.call_attr(n.value)]
+            if n.attr in fieldmap:
+                bound = {}
+                for i, pn in enumerate(params):
+                    a_ = A.arg_or_kw(n.value, i, pn)
+                    if a_ is not None:
+                        bound[pn] = a_
+                need_ = {x for x in A.names_in(fieldmap[n.attr]) if x in params}
+                if need_ <= set(bound):
+                    return subst(fieldmap[n.attr], bound)
         if isinstance(n, (ast.Attribute, ast.Subscript)) and isinstance(n.value, ast.Call):
             ctor = A.call_attr(n.value)
             if ctor in self.tuples and not any(isinstance(a, ast.Starred) for a in n.value.args):
@@ -165,11 +209,15 @@ class Sym:
             if isinstance(x, ast.Lambda):
                 bound |= {a.arg for a in x.args.args + x.args.kwonlyargs + x.args.posonlyargs}
         sym = self
+        if any(isinstance(x, ast.NamedExpr) for x in ast.walk(expr)):
+            env = dict(env)   # `(x := e)` binds x for the rest of the expression (operands are visited left to right)
 
         class T(ast.NodeTransformer):
             def visit_Name(self, n):
                 if isinstance(n.ctx, ast.Load) and n.id not in bound and n.id in env:
                     return sym._p(env[n.id])
+                if isinstance(n.ctx, ast.Load) and n.id not in bound and n.id in sym.consts:
+                    return copy.deepcopy(sym.consts[n.id])
                 return n
 
             def visit_Attribute(self, n):
@@ -193,7 +241,10 @@ class Sym:
                 return sym.simplify(n)
 
             def visit_NamedExpr(self, n):
-                return self.visit(n.value)  # `(x := e)` has the value of e
+                v = self.visit(n.value)  # `(x := e)` has the value of e
+                if isinstance(n.target, ast.Name):
+                    env[n.target.id] = sym._fit(A.norm(v), n, n.target.id)
+                return v
 
         return T().visit(copy.deepcopy(expr))
 
@@ -234,10 +285,19 @@ class Sym:
                     same = (l.value is r.value) if isinstance(op, (ast.Is, ast.IsNot)) else (l.value == r.value and type(l.value) is type(r.value))
                 elif _is_pure_dotted(l) and _is_pure_dotted(r) and A.norm(l) == A.norm(r) and not self.fa.df.is_local(A.norm(l).split(".")[0]):
                     same = True
+                elif isinstance(op, (ast.Is, ast.IsNot)) and any(isinstance(x_, ast.Name) and x_.id in self.sentinels for x_ in (l, r)):
+                    # a value in which the sentinel does not occur is not the sentinel
+                    for (a_, b_) in ((l, r), (r, l)):
+                        if isinstance(b_, ast.Name) and b_.id in self.sentinels and b_.id not in A.names_in(a_) \
+                                and not any(t_.startswith("_") and not t_.startswith("_exc") for t_ in A.names_in(a_) if t_ in self._tok.values()):
+                            same = False
                 elif isinstance(op, (ast.Is, ast.IsNot)):
                     # a caught exception object is not None
                     for (a_, b_) in ((l, r), (r, l)):
                         if A.is_none(b_) and isinstance(a_, ast.Name) and a_.id.startswith("_exc"):
+                            same = False
+                        # nor is a display (tuple, list, dict, set, f-string)
+                        if A.is_none(b_) and isinstance(a_, (ast.Tuple, ast.List, ast.Dict, ast.Set, ast.JoinedStr)):
                             same = False
                         # nor is a named tuple (constructed here, or returned by a function known to return one)
                         if A.is_none(b_) and isinstance(a_, ast.Call) and (A.call_attr(a_) in self.tuples or A.call_attr(a_) in self.rets):
@@ -259,6 +319,12 @@ class Sym:
                 if (tv is not None and tv != p) or (A.norm(e), not p) in lits:
                     ok = False
                     break
+                # `x is None` cannot hold where the path has seen isinstance(x, ...) answer yes
+                if p and isinstance(e, ast.Compare) and len(e.ops) == 1 and isinstance(e.ops[0], ast.Is) and A.is_none(e.comparators[0]):
+                    subj = A.norm(e.left)
+                    if any(p2 and tx.startswith("isinstance(") and (A.isinstance_types(_parse(tx)) or ("",))[0] == subj for (tx, p2) in lits):
+                        ok = False
+                        break
             if ok:
                 out.append(c)
         return out
@@ -372,13 +438,25 @@ class Sym:
                 self._bind(env, a.name, self.token("exc", a), a)
         # walrus
         if nd.kind in ("stmt", "test"):
-            for sub_ in A.walk_local(a):
-                if isinstance(sub_, ast.NamedExpr) and isinstance(sub_.target, ast.Name):
-                    self._bind(env, sub_.target.id, self.text(sub_.value, env_in), a)
+            named = sorted((x for x in A.walk_local(a) if isinstance(x, ast.NamedExpr) and isinstance(x.target, ast.Name)),
+                           key=lambda x: (getattr(x, "lineno", 0), getattr(x, "col_offset", 0)))
+            if named:
+                seen_ = dict(env_in)   # a later `:=` of the same expression sees the earlier ones
+                for sub_ in named:
+                    v_ = self.text(sub_.value, seen_)
+                    self._bind(env, sub_.target.id, v_, a)
+                    seen_[sub_.target.id] = env[sub_.target.id]
         return env
 
     def exc_token(self, handler):
         return self.token("exc", handler)
+
+    def suppress_mark(self, with_stmt):
+        return ("@suppress:%s" % self.token("sup", with_stmt), True)
+
+    def suppress_continues(self, with_stmt):
+        """Does the graph know where control continues after this `with suppress(...)`?"""
+        return any(c_ for lst in self.suppress.values() for (w_, c_) in lst if w_ is with_stmt)
 
     def handler_mark(self, handler):
         return ("@except:%s" % self.token("exc", handler), True)
@@ -408,6 +486,13 @@ class Sym:
                 verdict = self.truth(t)
                 if is_test:
                     d_t, d_f = dnf(t, True), dnf(t, False)
+            if n in self.suppress and nd.ast is not None and any(isinstance(x_, (ast.Call, ast.Subscript)) for x_ in A.walk_local(nd.ast)):
+                for (w_, cont_) in self.suppress[n]:
+                    for d_ in cont_:
+                        nxt = (d_, envk, lits | {self.suppress_mark(w_)})
+                        if nxt not in seen:
+                            seen.add(nxt)
+                            work.append(nxt)
             for (d, l) in cfg.succ[n]:
                 nl = lits
                 if l == "exc":
@@ -487,6 +572,70 @@ def namedtuple_fields(ck, modname, name):
     raise AnalysisError("%s.%s: named tuple declaration not found" % (modname, name))
 
 
+def record_types(ck, modname):
+    """{name: [field names]} of the record types a module declares: NamedTuple / namedtuple (functional or class form) and
+    dataclasses.  A field read of a freshly constructed record is the constructor argument, whatever the record is called."""
+    mod = ck.repo.modules.get(modname)
+    out = {}
+    if mod is None:
+        return out
+    for st in mod.tree.body:
+        if isinstance(st, ast.Assign) and isinstance(st.value, ast.Call) and A.call_attr(st.value) in ("NamedTuple", "namedtuple"):
+            for t in st.targets:
+                if isinstance(t, ast.Name):
+                    try:
+                        out[t.id] = namedtuple_fields(ck, modname, t.id)
+                    except AnalysisError:
+                        pass
+        elif isinstance(st, ast.ClassDef):
+            is_nt = any("NamedTuple" in A.norm(b) for b in st.bases)
+            is_dc = any(A.norm(d.func if isinstance(d, ast.Call) else d).split(".")[-1] == "dataclass" for d in st.decorator_list)
+            if is_nt or is_dc:
+                fields = [s_.target.id for s_ in st.body if isinstance(s_, ast.AnnAssign) and isinstance(s_.target, ast.Name)]
+                if fields:
+                    out[st.name] = fields
+    return out
+
+
+def class_records(ck, modname):
+    """{class: ([constructor parameters], {field: expression})} for the plain classes of a module whose __init__ stores its
+    parameters (or expressions over them) in fields, once, unconditionally -- a "method object" / parameter object."""
+    mod = ck.repo.modules.get(modname)
+    out = {}
+    if mod is None:
+        return out
+    for cls in mod.all_classes():
+        init = cls.methods.get("__init__")
+        if init is None or init.is_static or len(init.params) < 1 or cls.node.bases:
+            continue
+        a = init.node.args
+        if a.vararg or a.kwarg:
+            continue
+        me, params = init.params[0], init.params[1:]
+        fieldmap, dropped = {}, set()
+        for st in A.all_stmts(init.node):
+            tgs = st.targets if isinstance(st, ast.Assign) else [st.target] if isinstance(st, (ast.AnnAssign, ast.AugAssign)) else []
+            for t in tgs:
+                for x in ast.walk(t):
+                    if isinstance(x, ast.Attribute) and isinstance(x.value, ast.Name) and x.value.id == me:
+                        top = st in init.node.body and isinstance(st, (ast.Assign, ast.AnnAssign)) and x is t and getattr(st, "value", None) is not None
+                        if not top or x.attr in fieldmap or me in A.names_in(st.value):
+                            dropped.add(x.attr)
+                        else:
+                            fieldmap[x.attr] = st.value
+        # a field that any other method assigns is not a constant of the object
+        for m in cls.methods.values():
+            if m is init or not m.params:
+                continue
+            for x in ast.walk(m.node):
+                if isinstance(x, ast.Attribute) and isinstance(x.ctx, (ast.Store, ast.Del)) and isinstance(x.value, ast.Name) and x.value.id == m.params[0]:
+                    dropped.add(x.attr)
+        fieldmap = {f: v for f, v in fieldmap.items() if f not in dropped}
+        if fieldmap:
+            out[cls.name] = (params, fieldmap)
+    return out
+
+
 def exact_class(ck, call):
     """Class of the object a call constructs, when that is evident: `Cls(...)`, or a function of the
     repository all of whose returns are `Cls(...)`."""
@@ -538,6 +687,39 @@ def possible_values(fa, expr, at, _depth=0):
         return [expr]
     if isinstance(expr, ast.IfExp):
         return possible_values(fa, expr.body, at, _depth + 1) + possible_values(fa, expr.orelse, at, _depth + 1)
+    if isinstance(expr, ast.BoolOp):
+        return [v for x in expr.values for v in possible_values(fa, x, at, _depth + 1)]
+    if isinstance(expr, ast.Call) and isinstance(expr.func, ast.Name) and expr.func.id == "next" and 1 <= len(expr.args) <= 2 \
+            and isinstance(expr.args[0], ast.GeneratorExp):
+        # the first element a filter lets through: any of them, or the default
+        bs = comprehension_elements(fa, expr.args[0].generators, at, possible=True)
+        if bs is not None:
+            out = [v for b in bs for v in possible_values(fa, subst(expr.args[0].elt, b), at, _depth + 1)]
+            if len(expr.args) == 2 and not A.is_none(expr.args[1]):
+                out += possible_values(fa, expr.args[1], at, _depth + 1)
+            if out:
+                return out
+    if isinstance(expr, ast.Call) and _depth <= 3 and isinstance(expr.func, ast.Name) and fa.df.is_local(expr.func.id):
+        # a function picked from a table and then called: what any of the functions it can stand for returns
+        out = []
+        for fv in possible_values(fa, expr.func, at, _depth + 1):
+            if isinstance(fv, ast.Name) and not fa.df.is_local(fv.id):
+                out += possible_values(fa, ast.Call(func=fv, args=list(expr.args), keywords=list(expr.keywords)), at, _depth + 1)
+        if out:
+            return out
+    if isinstance(expr, ast.Call) and _depth <= 3:
+        callee, _off = resolve_callee(fa, expr)
+        if callee is not None and callee.node is not fa.node:
+            try:
+                cfa = FA(fa.ck, callee)
+                out = []
+                for r in cfa.returns():
+                    if r.value is not None and cfa.nodes(r) and not A.is_none(r.value):
+                        out += possible_values(cfa, r.value, cfa.nodes(r)[0], _depth + 2)
+                if out:
+                    return out
+            except AnalysisError:
+                pass
     if isinstance(expr, ast.Name) and fa.df.is_local(expr.id):
         out = []
         for d in fa.df.reaching(at, expr.id):
@@ -594,96 +776,6 @@ MAY_RAISE = {
 }
 
 
-def _bound_value(fa, e, at):
-    """The expression a name stands for, when that is evident: a local with one reaching plain assignment, a module-level
-    name of this module or of the repository module it is imported from, a class-level constant read as `self.X` / `cls.X` /
-    `Class.X` in a method of that class (and never assigned through an instance).  None otherwise."""
-    if isinstance(e, ast.Name):
-        if fa.df.is_local(e.id):
-            ds = fa.df.reaching(at, e.id)
-            if len(ds) == 1 and ds[0].kind == "assign" and ds[0].value is not None:
-                return ds[0].value
-            return None
-        mod = fa.fi.module
-        if e.id in mod.assigns:
-            return mod.assigns[e.id]
-        origin = mod.imports.get(e.id)
-        if origin and ":" in origin:
-            m_, n_ = origin.split(":", 1)
-            other = fa.ck.repo.modules.get(m_.lstrip(".").split(".")[-1])
-            if other is not None and n_ in other.assigns:
-                return other.assigns[n_]
-        return None
-    if isinstance(e, ast.Attribute) and isinstance(e.value, ast.Name):
-        k = fa.fi.cls
-        while k is not None:
-            if e.value.id in ("self", "cls", k.name):
-                for st in k.node.body:
-                    for (tg, v) in ([(t, st.value) for t in st.targets] if isinstance(st, ast.Assign) else
-                                    [(st.target, st.value)] if isinstance(st, ast.AnnAssign) and st.value is not None else []):
-                        if isinstance(tg, ast.Name) and tg.id == e.attr:
-                            stores = [n for m in k.methods.values() for n in ast.walk(m.node)
-                                      if isinstance(n, ast.Attribute) and n.attr == e.attr and isinstance(n.ctx, (ast.Store, ast.Del))]
-                            return None if stores else v
-            k = getattr(k, "outer", None)
-    return None
-
-
-def _literal_seq(fa, it, at, _depth=0):
-    """Elements of a literal tuple / list / set (possibly bound to a local, module-level or class-level name), else None."""
-    if isinstance(it, (ast.Tuple, ast.List, ast.Set)):
-        return list(it.elts)
-    if _depth > 4:
-        return None
-    if isinstance(it, ast.Call) and A.call_dotted(it) in ("tuple", "list", "sorted", "frozenset", "set") and len(it.args) == 1 and not it.keywords:
-        return _literal_seq(fa, it.args[0], at, _depth + 1)
-    v = _bound_value(fa, it, at)
-    if v is not None:
-        if isinstance(it, ast.Name) and fa.df.is_local(it.id):
-            at = fa.df.reaching(at, it.id)[0].node
-        return _literal_seq(fa, v, at, _depth + 1)
-    return None
-
-
-def table_entries(fa, expr, at, _depth=0):
-    """(key, value) pairs of a dictionary-building expression: a literal (with ** parts), a comprehension over a
-    literal sequence, dict.fromkeys, `a | b`, a local / module-level name bound to one of these.  None if not understood."""
-    if _depth > 6 or expr is None:
-        return None
-    if isinstance(expr, ast.Dict):
-        out = []
-        for k, v in zip(expr.keys, expr.values):
-            if k is None:
-                sub = table_entries(fa, v, at, _depth + 1)
-                if sub is None:
-                    return None
-                out += sub
-            else:
-                out.append((k, v))
-        return out
-    if isinstance(expr, ast.DictComp) and len(expr.generators) == 1 and not expr.generators[0].ifs:
-        g = expr.generators[0]
-        seq = _literal_seq(fa, g.iter, at)
-        if seq is not None and isinstance(g.target, ast.Name) and isinstance(expr.key, ast.Name) and expr.key.id == g.target.id \
-                and g.target.id not in A.names_in(expr.value):
-            return [(e, expr.value) for e in seq]
-        return None
-    if isinstance(expr, ast.Call) and A.call_dotted(expr) == "dict.fromkeys" and len(expr.args) == 2:
-        seq = _literal_seq(fa, expr.args[0], at)
-        return [(e, expr.args[1]) for e in seq] if seq is not None else None
-    if isinstance(expr, ast.Call) and A.call_dotted(expr) == "dict" and len(expr.args) == 1 and not expr.keywords:
-        return table_entries(fa, expr.args[0], at, _depth + 1)
-    if isinstance(expr, ast.BinOp) and isinstance(expr.op, ast.BitOr):
-        l, r = table_entries(fa, expr.left, at, _depth + 1), table_entries(fa, expr.right, at, _depth + 1)
-        return None if l is None or r is None else l + r
-    v = _bound_value(fa, expr, at)
-    if v is not None:
-        if isinstance(expr, ast.Name) and fa.df.is_local(expr.id):
-            at = fa.df.reaching(at, expr.id)[0].node
-        return table_entries(fa, v, at, _depth + 1)
-    return None
-
-
 def strategy_table(fa):
     """{ResultType member: strategy class name} as DefaultCodec.__init__ builds it, however the dictionary is
     spelled: literals, comprehensions, `d[k] = v` (also in a loop over a literal sequence), `d.update(...)`."""
@@ -692,19 +784,32 @@ def strategy_table(fa):
         ids = fa.nodes(n) if isinstance(n, (ast.expr, ast.stmt)) else []
         if not ids:
             continue
-        if isinstance(n, (ast.Dict, ast.DictComp)) or (isinstance(n, ast.Call) and A.call_dotted(n) == "dict.fromkeys"):
+        if isinstance(n, (ast.Dict, ast.DictComp)) or (isinstance(n, ast.Call) and A.call_dotted(n) in ("dict.fromkeys", "dict") and n.args):
             ent = table_entries(fa, n, ids[0])
             if ent:
                 pairs += [(k, v, ids[0]) for (k, v) in ent]
         elif isinstance(n, ast.Assign) and len(n.targets) == 1 and isinstance(n.targets[0], ast.Subscript):
             pairs.append((n.targets[0].slice, n.value, ids[0]))
+        if isinstance(n, ast.Call) and A.call_attr(n) == "update" and len(n.args) == 1 and not isinstance(n.args[0], (ast.Dict, ast.DictComp)):
+            # d.update(<(key, value) rows>)
+            rows = _literal_seq(fa, n.args[0], ids[0])
+            if rows is not None and all(isinstance(r, (ast.Tuple, ast.List)) and len(r.elts) == 2 for r in rows):
+                for r in rows:
+                    v_ = fold_lookups(fa, r.elts[1], ids[0])
+                    ast.copy_location(v_, n)
+                    k_ = ast.copy_location(copy.deepcopy(r.elts[0]), n)
+                    pairs.append((k_, v_, ids[0]))
     table = {}
+    # in source order: a later entry for the same member replaces an earlier one
+    pairs.sort(key=lambda kv_: (getattr(kv_[0], "lineno", 0) or getattr(kv_[1], "lineno", 0), getattr(kv_[0], "col_offset", 0)))
     for (k, v, at) in pairs:
         for kv in possible_values(fa, k, at):
             dk = A.dotted(kv)
             if not (dk and dk.startswith("ResultType.")):
                 continue
             ve = fa.expand(v, at)
+            if isinstance(ve, ast.Call) and isinstance(ve.func, ast.Call) and A.call_attr(ve.func) == "partial" and ve.func.args:
+                ve = ast.Call(func=ve.func.args[0], args=list(ve.func.args[1:]) + list(ve.args), keywords=[])   # partial(C, a)() is C(a)
             table[dk.split(".")[1]] = A.call_attr(ve) if isinstance(ve, ast.Call) else None
     return table
 
@@ -722,6 +827,28 @@ def check_exhaustive(ck, R):
             d = A.dotted(v)
             if d and d.startswith("ResultType."):
                 returned.add(d.split(".")[1])
+    # ... and what the classifier answers for a value of each class it names (covers dispatch written as `next(...)` over a
+    # table, a look-up keyed by the value's class, ...)
+    try:
+        D = dispatch_model(ck, fo, repo_subclass_pairs(ck))
+        if D is not None:
+            worlds = [(k, kind, "actual") for k in D.named() + ["None", "<no class>"] for kind in ("exact", "sub")]
+            texts = set()
+            for w in worlds:
+                texts |= {val for (kind, val) in D.outcome(w) if kind == "return"}
+            for val in sorted(texts | D.helper_returns):
+                if val.startswith("ResultType.") and val.split(".", 1)[1].isidentifier():
+                    returned.add(val.split(".")[1])
+                    continue
+                try:   # e.g. a look-up in a literal table: any of its values
+                    for v in possible_values(fo, _parse(val), None):
+                        d = A.dotted(v)
+                        if d and d.startswith("ResultType.") and d.count(".") == 1:
+                            returned.add(d.split(".")[1])
+                except (AnalysisError, SyntaxError, AttributeError, TypeError, IndexError, KeyError):
+                    pass
+    except _Unsupported:
+        pass
     rt = ck.repo.cls("metadata.ResultType")
     members = [t.id for st in rt.node.body if isinstance(st, ast.Assign) for t in st.targets if isinstance(t, ast.Name)]
     dc = FA(ck, "storage_base.DefaultCodec.__init__")
@@ -754,22 +881,23 @@ def check_order(ck, R):
                         ("serialization.MementoCodec.encode_arg", "wire-encode")):
         fa = FA(ck, qual)
         lad = extract_ladder(fa.node)
-        ck.need(len(lad) >= 5, "%s: isinstance ladder not recognised" % qual)
+        D = dispatch_model(ck, fa, pairs)
+        ck.need(len(lad) >= 5 or (D is not None and len(D.named()) >= 5), "%s: type dispatch not recognised" % qual)
         n += check_ladder_order(ck, R, fa, lad, pairs, label)
     rl = FA(ck, RL)
     body = rl.one(rl.calls("_filter_call"), "_filter_call call")
     tr = [t for t in rl.stmts(ast.Try) if any(rl.inside(body, b) for b in t.body) and t.handlers]
     tr = tr[0] if tr else None
     ck.need(tr is not None, "memento_run_local: try around the body call not found")
-    n += check_ladder_order(ck, R, rl, handler_ladder(tr), pairs, "handlers")
+    n += check_ladder_order(ck, R, rl, handler_ladder(tr, rl.fi.module.assigns), pairs, "handlers")
     ck.need(n >= 4, "dispatch-order rule found only %d comparable pairs" % n)
 
 
 def classifies_exception(ck):
-    """Does ResultType.from_object answer ResultType.exception for every MementoException?  Decided on the path classes of
-    from_object, whatever its shape (early returns, elif chain assigning a result variable, ...): every way out (return or
-    raise) has first tested `isinstance(<obj>, MementoException)`; the ways out on which the test held return
-    ResultType.exception; no raise lies on them."""
+    """Does ResultType.from_object answer ResultType.exception for every MementoException?  Decided on what from_object
+    answers for a value whose class is MementoException or one of its subclasses (abstract run of its body, `Dispatch`),
+    whatever its shape: early returns, an elif chain assigning a result variable, a first-match table, an exact-class
+    look-up in front.  Every way out for such a value returns ResultType.exception."""
     memo = ck.__dict__.setdefault("_c02_classifies_exception", {})
     if "v" in memo:
         return memo["v"]
@@ -777,35 +905,15 @@ def classifies_exception(ck):
     fo = ck.repo.try_func("metadata.ResultType.from_object")
     if fo is None or not fo.params:
         return False
-    obj = fo.params[0] if fo.is_static else (fo.params + [None])[1]
-
-    def is_me(e):
-        it = A.isinstance_types(e)
-        return bool(it) and it[0] == obj and any(t.split(".")[-1] == "MementoException" for t in it[1])
-
-    def polarity(lits):
-        return {p for (tx, p) in lits if not tx.startswith("@") and is_me(_parse(tx))}
-
     try:
-        fa = FA(ck, fo)
-        S = Sym(fa, watch=lambda tx, e: is_me(e))
-        rets = S.return_states()
-        ok = bool(rets)
-        seen = False
-        for (_r, _env, lits, v) in rets:
-            pol = polarity(lits)
-            if not pol:
-                ok = False
-            if True in pol:
-                seen = True
-                ok = ok and v == "ResultType.exception"
-        for r in fa.stmts(ast.Raise):
-            for (_env, lits) in S.at(r):
-                pol = polarity(lits)
-                if not pol or True in pol:
-                    ok = False
-        memo["v"] = bool(ok and seen)
-    except AnalysisError:
+        pairs = repo_subclass_pairs(ck)
+        D = dispatch_model(ck, FA(ck, fo), pairs)
+        if D is None or "MementoException" not in D.named():
+            return False
+        classes = ["MementoException"] + sorted({sub for (sub, sup) in pairs if sup == "MementoException"})
+        want = frozenset({("return", "ResultType.exception")})
+        memo["v"] = all(D.outcome((k, kind, "actual")) == want for k in classes for kind in ("exact", "sub"))
+    except (AnalysisError, _Unsupported):
         memo["v"] = False
     return memo["v"]
 
@@ -814,7 +922,8 @@ def _runner_sym(ck, fa, **kw):
     """Symbolic view with the facts the runner rules share: ExistingMementoResult is a named tuple that
     process_existing_memento returns; a constructed object's class decides isinstance tests on it; classifying a
     MementoException yields ResultType.exception (checked on from_object's first rung)."""
-    tuples = {"ExistingMementoResult": namedtuple_fields(ck, "runner", "ExistingMementoResult")}
+    tuples = dict(record_types(ck, fa.fi.module.name))
+    tuples["ExistingMementoResult"] = namedtuple_fields(ck, "runner", "ExistingMementoResult")
     exc_first = classifies_exception(ck)
 
     def rewrite(n):
@@ -826,7 +935,7 @@ def _runner_sym(ck, fa, **kw):
         return None
 
     return Sym(fa, tuples=tuples, returns={"process_existing_memento": "ExistingMementoResult"}, rewrite=rewrite,
-               truth=lambda t: isinstance_truth(ck, t), **kw)
+               truth=lambda t: isinstance_truth(ck, t), records=class_records(ck, fa.fi.module.name), **kw)
 
 
 def _is_call_to(e, name):
@@ -843,7 +952,17 @@ def check_run_record_replay(ck, R):
     bn = rl.nodes(body)
 
     # ---- the literals the clauses speak about, recognised on what the tested expression *is* ---------------
+    def single_lookup(c):
+        """The reference a store look-up is made for: get_memento(ref), or the only slot of get_mementos([ref])."""
+        if _is_call_to(c, "get_memento") and c.args:
+            return c.args[0]
+        if _is_call_to(c, "get_mementos") and len(c.args) == 1 and isinstance(c.args[0], (ast.List, ast.Tuple)) and len(c.args[0].elts) == 1:
+            return c.args[0].elts[0]
+        return None
+
     def is_lookup(e):
+        if isinstance(e, ast.Subscript) and isinstance(e.slice, ast.Constant) and e.slice.value in (0, -1) and _is_call_to(e.value, "get_mementos"):
+            return single_lookup(e.value) is not None
         return _is_call_to(e, "get_memento")
 
     def is_valid(e):
@@ -864,14 +983,18 @@ def check_run_record_replay(ck, R):
         it = A.isinstance_types(e)
         return it[0] if it and any(t.split(".")[-1] == "KeyOverrideResult" for t in it[1]) else None
 
+    def on_caught_exception(e):
+        it = A.isinstance_types(e)
+        return bool(it) and it[0].startswith("_exc")
+
     def watch(tx, e):
-        return kind(e, True) is not None or ko_subject(e) is not None or _is_call_to(e, "is_memoized")
+        return kind(e, True) is not None or ko_subject(e) is not None or _is_call_to(e, "is_memoized") or on_caught_exception(e)
 
     def cut_miss(d):
         return bool(d) and all(any(kind(e, p) == "miss" for (e, p) in c) for c in d)
 
     # (a) with every "the look-up found nothing valid" edge removed, the body cannot be reached
-    lookup_calls = [c for c in rl.calls("get_memento")]
+    lookup_calls = [c for c in rl.calls("get_memento")] + [c for c in rl.calls("get_mementos") if is_lookup(rl.pm.get(c))]
     lookups = rl.nodes_all([c for c in lookup_calls if rl.unconditional(c)])
     cond_lookups = [c for c in lookup_calls if not rl.unconditional(c)]
     for c in cond_lookups:
@@ -906,11 +1029,12 @@ def check_run_record_replay(ck, R):
     mem = rl.some([c for c in rl.calls("memoize") if A.call_recv(c) is not None and rl.xnorm(A.call_recv(c)) in {rl.xnorm(A.call_recv(c2)) for c2 in lookup_calls if A.call_recv(c2) is not None} | recv],
                   "memoize call")
     mn = rl.nodes_all(mem)
-    tr = [t for t in rl.stmts(ast.Try) if any(rl.inside(body, b) for b in t.body) and t.handlers][0]
+    trs = [t for t in rl.stmts(ast.Try) if any(rl.inside(body, b) for b in t.body) and t.handlers]
+    ck.need(trs, "memento_run_local: no try statement with handlers around the body call (is the exception policy in a context manager's __exit__?)")
+    tr = trs[0]
+
     def caught(h):
-        if h.type is None:
-            return []
-        return [A.norm(t) for t in (h.type.elts if isinstance(h.type, ast.Tuple) else [h.type])]
+        return handler_type_names(h, rl.fi.module.assigns)
 
     for h in tr.handlers:
         hn = [n.id for n in cfg.nodes if n.kind == "except" and n.ast is h]
@@ -920,10 +1044,39 @@ def check_run_record_replay(ck, R):
                 okh = not (set(mn) & reach) and cfg.exit not in reach
                 ck.ob(R, rl.key(h, "never-recorded"), okh, "%s is re-raised and never memoized" % tn if okh else
                       "%s can reach memoize or a normal return: it is recorded / swallowed" % tn, rl.where(h))
-    names = [t for h in tr.handlers for t in caught(h)]
+    # an exception that must never be recorded either has no handler here at all (it propagates), or the first handler that
+    # catches it -- its own, or one written for a superclass -- lets it reach neither memoize nor a normal return: every such
+    # state has seen `isinstance(<the caught exception>, <that class>)` answer no
+    supers = {}
+    for (sub_, sup_) in repo_subclass_pairs(ck):
+        supers.setdefault(sub_, set()).add(sup_)
+
+    def catches(h, cls_name):
+        ts = [t.split(".")[-1] for t in caught(h)]
+        return h.type is None or cls_name in ts or any(t in supers.get(cls_name, ()) or t == "BaseException" for t in ts)
+
+    def ruled_out(cls_name, lits, tok):
+        for (tx, p) in lits:
+            if p or tx.startswith("@"):
+                continue
+            it = A.isinstance_types(_parse(tx))
+            if it and it[0] == tok and any(t.split(".")[-1] == cls_name or t.split(".")[-1] in supers.get(cls_name, ()) for t in it[1]):
+                return True
+        return False
+
     for need in ("NonMemoizedException", "RemoteCallException"):
-        ck.ob(R, rl.key(tr, "handler-" + need), need in names, "%s has its own handler" % need if need in names else
-              "no dedicated handler for %s: it is memoized like an ordinary exception" % need, rl.where(tr))
+        first = ([h for h in tr.handlers if catches(h, need)] or [None])[0]
+        okn, how, at_ = True, "%s propagates: no handler of the body call catches it" % need, tr
+        if first is not None:
+            mark, tok = S.handler_mark(first), S.exc_token(first)
+            leaks = [c for c in mem for (env, lits) in S.at(c) if mark in lits and not ruled_out(need, lits, tok)]
+            leaks += [r for (r, env, lits, v) in rets if mark in lits and not ruled_out(need, lits, tok)]
+            okn = not leaks
+            at_ = leaks[0] if leaks else first
+            own = need in [t.split(".")[-1] for t in caught(first)]
+            how = ("%s has its own handler" % need) if own else ("%s is sorted out of the handler for %s before anything is recorded" % (need, "/".join(caught(first)) or "everything"))
+        ck.ob(R, rl.key(tr, "handler-" + need), okn, how if okn else
+              "no dedicated handler for %s: it is memoized like an ordinary exception" % need, rl.where(at_ if not okn else tr))
     # (c) in every state in which memoize is called: what the store holds for <memento>.invocation_metadata.result_type
     # is from_object(<the value being memoized>), and <memento> is the frame's memento
     any_ko = False
@@ -966,7 +1119,7 @@ def check_run_record_replay(ck, R):
     ck.ob(R, rl.key(None, "unwrap-before-classify"), bool(oku), "a KeyOverrideResult is unwrapped before the value is classified" if oku else
           "a KeyOverrideResult is not unwrapped before classification", rl.where())
     # (d) on the paths through the handler of ordinary exceptions
-    gen = [h for h in tr.handlers if h.type is not None and A.norm(h.type) == "Exception"]
+    gen = [h for h in tr.handlers if caught(h) == ["Exception"]]
     okd = False
     exc_rets = []
     if gen:
@@ -989,8 +1142,10 @@ def check_run_record_replay(ck, R):
     # memoize only if not already memoized: every state calling memoize has seen is_memoized(<this call>) answer no
     look_arg = None
     for c in lookup_calls:
-        if c.args and _is_call_to(c.args[0], "fn_reference_with_arg_hash") and A.call_recv(c.args[0]) is not None:
-            look_arg = rl.xnorm(A.call_recv(c.args[0]))
+        for (env, _lits) in (S.at(c) if single_lookup(c) is not None else []):
+            a0 = _parse(S.text(single_lookup(c), env))
+            if _is_call_to(a0, "fn_reference_with_arg_hash") and A.call_recv(a0) is not None:
+                look_arg = A.norm(A.call_recv(a0))
     oki = look_arg is not None
     for c in mem:
         for (env, lits) in S.at(c):
@@ -1023,9 +1178,12 @@ def check_replay(ck, R):
     # what the function returns, per path class: ExistingMementoResult(result=<r>, valid_result=<v>) over the symbolic store
     fields = namedtuple_fields(ck, "runner", "ExistingMementoResult")
 
+    ck.need(len(pe_params) >= 3, "process_existing_memento(storage_backend, existing_memento, ignore_result): parameters not found")
+    p_memento, p_ignore = pe_params[1], pe_params[2]
+
     def watch(tx, e):
         it = A.isinstance_types(e)
-        return "ignore_result" in A.names_in(e) or "result_type" in A.attrs_in(e) or bool(it and "MementoException" in [t.split(".")[-1] for t in it[1]])
+        return p_ignore in A.names_in(e) or "result_type" in A.attrs_in(e) or bool(it and "MementoException" in [t.split(".")[-1] for t in it[1]])
 
     S = _runner_sym(ck, pe, watch=watch)
     read = {S.text(rr, env) for (env, _l) in S.at(rr)}
@@ -1040,20 +1198,32 @@ def check_replay(ck, R):
         else:
             outs.append((r, lits, None, None))
     ck.need(outs, "process_existing_memento: no return reached")
-    is_exc = "isinstance(%s, MementoException)" % read
+    ck.need(all(o[3] in ("True", "False") for o in outs if o[3] is not None),
+            "process_existing_memento: whether an answer is valid is not evident on every path (`%s`)"
+            % next((o[3] for o in outs if o[3] not in ("True", "False", None)), ""))
+    def exc_test(lits, pol):
+        """Has the path seen `isinstance(<the value read>, MementoException)` answer `pol`?"""
+        for (tx, p) in lits:
+            if p != pol or tx.startswith("@"):
+                continue
+            it = A.isinstance_types(_parse(tx))
+            if it and it[0] == read and [t.split(".")[-1] for t in it[1]] == ["MementoException"]:
+                return True
+        return False
+
     unwrapped = A.norm(_parse("(%s).to_exception()" % read))
     valid = [o for o in outs if o[3] != "False"]  # every answer that is not "recompute"
-    on_exc = [o for o in valid if (is_exc, True) in o[1]]
+    on_exc = [o for o in valid if exc_test(o[1], True)]
     okt = bool(on_exc) and all(o[2] == unwrapped and o[3] == "True" for o in on_exc)
     ck.ob(R, pe.key(None, "unwraps-exception"), okt, "a stored MementoException is rebuilt into the original exception class" if okt else
           "a stored MementoException is not passed through to_exception()", pe.where())
     with_value = [o for o in valid if o[2] != "None"]
     okv = bool(with_value) and all(o[3] == "True" and o[2] in (read, unwrapped) for o in with_value) and any(o[2] == read for o in with_value) \
-        and all(o[2] == read for o in with_value if (is_exc, False) in o[1])
+        and all(o[2] == read for o in with_value if exc_test(o[1], False))
     ck.ob(R, pe.key(None, "returns-read-value"), okv, "the value read back is returned as valid" if okv else
           "process_existing_memento does not return the value it read", pe.where())
     ign = [o for o in valid if o[2] == "None"]
-    oki = bool(ign) and all(("ignore_result", True) in o[1] for o in ign)
+    oki = bool(ign) and all((p_ignore, True) in o[1] for o in ign)
     ck.ob(R, pe.key(None, "ignore-means-valid-none"), oki, "(None, valid) is returned only under ignore_result" if oki else
           "a valid-but-empty answer is returned outside ignore_result", pe.where())
     # sibling agreement with the computing path (memento_run_local suppresses the value only when
@@ -1063,7 +1233,7 @@ def check_replay(ck, R):
             e = None if tx.startswith("@") else _parse(tx)
             if isinstance(e, ast.Compare) and isinstance(e.ops[0], (ast.Eq, ast.Is)) and not p:  # enum members: == and `is` agree
                 sides = [A.norm(e.left), A.norm(e.comparators[0])]
-                if "ResultType.exception" in sides and any(x.endswith(".invocation_metadata.result_type") and x.startswith("existing_memento") for x in sides):
+                if "ResultType.exception" in sides and any(x == p_memento + ".invocation_metadata.result_type" for x in sides):
                     return True
         return False
 
@@ -1078,6 +1248,11 @@ def check_replay(ck, R):
         nm = A.call_attr(c)
         if nm in MAY_RAISE and not (nm == "getattr" and len(c.args) != 2):
             risky.append((c, MAY_RAISE[nm], "%s(...)" % nm))
+    for c in tx.calls():
+        if isinstance(c.func, ast.Call) and A.call_attr(c.func) == "attrgetter":
+            risky.append((c, MAY_RAISE["getattr"], "attrgetter(...)(...)"))
+        elif A.call_attr(c) == "reduce" and c.args and isinstance(c.args[0], ast.Name) and c.args[0].id == "getattr":
+            risky.append((c, MAY_RAISE["getattr"], "reduce(getattr, ...)"))
     # calling the reconstructed class itself
     for c in tx.calls():
         if isinstance(c.func, ast.Name) and tx.df.is_local(c.func.id) and c.func.id not in ("match",):
@@ -1096,12 +1271,7 @@ def check_replay(ck, R):
     mod_consts = tx.fi.module.assigns
 
     def handler_types(h):
-        if h.type is None:
-            return ["BaseException"]
-        t = h.type
-        if isinstance(t, ast.Name) and isinstance(mod_consts.get(t.id), ast.Tuple):
-            t = mod_consts[t.id]  # a module-level tuple of exception classes
-        return [A.norm(x) for x in (t.elts if isinstance(t, ast.Tuple) else [t])]
+        return handler_type_names(h, mod_consts) or ["BaseException"]
 
     def returns_self(h):
         """Once in the handler, the function can only end by returning self: no raise inside the handler, no falling
@@ -1116,11 +1286,80 @@ def check_replay(ck, R):
         vals = [v for (_r, _env, lits, v) in TS.return_states() if mark in lits]
         return bool(vals) and all(v == "self" for v in vals)
 
+    def suppressed_types(w):
+        out = []
+        for it_ in w.items:
+            c_ = it_.context_expr
+            if isinstance(c_, ast.Call) and A.call_attr(c_) == "suppress" and not c_.keywords:
+                for a_ in c_.args:
+                    a_ = mod_consts.get(a_.id, a_) if isinstance(a_, ast.Name) else a_
+                    out += [A.norm(x) for x in (a_.elts if isinstance(a_, ast.Tuple) else [a_])]
+        return out
+
+    def returns_self_after(stmt):
+        """Whatever runs after `stmt` (where control continues when an exception raised inside it is suppressed) can
+        only end by returning self."""
+        cur = stmt
+        nxt = None
+        while nxt is None:
+            par = tx.pm.get(cur)
+            if par is None or isinstance(par, (ast.For, ast.AsyncFor, ast.While)):
+                return False
+            for fld in ("body", "orelse", "finalbody"):
+                blk = getattr(par, fld, None)
+                if isinstance(blk, list) and cur in blk:
+                    rest = blk[blk.index(cur) + 1:]
+                    if rest:
+                        nxt = rest[0]
+                    elif isinstance(par, ast.Try) and fld == "body" and (par.orelse or par.finalbody):
+                        nxt = (par.orelse or par.finalbody)[0]
+                    break
+            else:
+                if isinstance(par, ast.ExceptHandler):
+                    pass
+                else:
+                    return False
+            if nxt is None:
+                if isinstance(par, (ast.FunctionDef, ast.AsyncFunctionDef)):
+                    return False  # falls off the end: returns None
+                cur = par
+        ids = tx.nodes(nxt)
+        if not ids:
+            # the graph does not know that control continues here (everything inside the with statement returns):
+            # decided on the statements themselves -- nothing but logging, then `return self`
+            par = tx.pm.get(nxt)
+            for fld in ("body", "orelse", "finalbody"):
+                blk = getattr(par, fld, None)
+                if isinstance(blk, list) and nxt in blk:
+                    for st in blk[blk.index(nxt):]:
+                        if isinstance(st, ast.Expr) and isinstance(st.value, ast.Call) and log_call(st.value):
+                            continue
+                        return isinstance(st, ast.Return) and isinstance(st.value, ast.Name) and st.value.id == (tx.fi.params or ["self"])[0]
+            return False
+        after = tx.cfg.reach(ids) | set(ids)
+        if any(isinstance(x, ast.Raise) and set(tx.nodes(x)) & after for x in A.walk_body(tx.node)) or falls_off & after:
+            return False
+        vals = [v for (r, _env, _lits, v) in TS.return_states() if set(tx.nodes(r)) & after]
+        return bool(vals) and all(v == "self" for v in vals)
+
     for (c, exc_names, what) in risky:
         covered = False
         n = c
         while n is not None and not covered:
             p = tx.pm.get(n)
+            if isinstance(p, (ast.With, ast.AsyncWith)) and any(tx.inside(c, b) for b in p.body):
+                sts_ = suppressed_types(p)
+                if (set(sts_) & (set(exc_names) | {"BaseException"})) or ("ImportError" in sts_ and "ModuleNotFoundError" in exc_names):
+                    if TS.suppress_continues(p):
+                        # every way the function can end after the failure was suppressed returns self
+                        mk = TS.suppress_mark(p)
+                        vals = [v for (_r, _env, lits, v) in TS.return_states() if mk in lits]
+                        leaks = any(mk in lits for x in A.walk_body(tx.node) if isinstance(x, ast.Raise) for (_e, lits) in TS.at(x)) or \
+                            any(mk in lits for s_ in falls_off for (_e, lits) in TS.states.get(s_, []))
+                        covered = bool(vals) and all(v == "self" for v in vals) and not leaks
+                    elif returns_self_after(p):
+                        covered = True
+                    break
             if isinstance(p, ast.Try) and any(tx.inside(c, b) for b in p.body):
                 for h in p.handlers:
                     hts = handler_types(h)
@@ -1150,49 +1389,243 @@ def check_exception_surface(ck, R):
     """The exception object produced by the runner is raised to the caller of call(); the stored
     form of an exception is read with the keys it is written with."""
     cl = FA(ck, "base.MementoFunctionBase.call")
-    raises = [r for r in cl.stmts(ast.Raise) if r.exc is not None and cl.nodes(r)]
-    ok = False
-    for r in raises:
-        # the raise is reached exactly when the slot holds an exception, and raises that slot
-        conds = cl.conditions(r)
-        want = ("isinstance(%s, Exception)" % cl.xnorm(r.exc), True)
-        if conds and all(want in c for c in conds) and "op:subscript" in cl.deps(r.exc) and "call:memento_run_batch" in cl.deps(r.exc):
-            ok = True
+    # Decided on the path classes of call() over the symbolic store: the single slot of the one-element batch is
+    # `memento_run_batch(...)[0]` however it is taken out (subscript, unpacking `(r,) = results`, temporaries, a helper);
+    # every value call() returns is that slot on a path that has seen `isinstance(<slot>, Exception)` answer no, and
+    # the slot is raised where the test answered yes.
+    def is_slot(e):
+        return isinstance(e, ast.Subscript) and A.norm(e.slice) in ("0", "-1") and _is_call_to(e.value, "memento_run_batch")
+
+    def exc_test_on(e, slot_text):
+        it = A.isinstance_types(e)
+        return bool(it) and it[0] == slot_text and any(t.split(".")[-1] in ("Exception", "BaseException") for t in it[1])
+
+    def watch_exc(tx, e):
+        it = A.isinstance_types(e)
+        return bool(it) and "memento_run_batch(" in it[0]
+
+    S = Sym(cl, watch=watch_exc)
+    rstates = S.return_states()
+    okr = bool(rstates) and all(is_slot(_parse(v)) for (_r, _env, _lits, v) in rstates)
+    falls = [s_ for (s_, l_) in cl.cfg.pred[cl.cfg.exit] if not isinstance(cl.cfg.node(s_).ast, ast.Return) and s_ in S.states]
+    sorted_out = okr and not falls and all(any((not p) and not tx.startswith("@") and exc_test_on(_parse(tx), v) for (tx, p) in lits)
+                                           for (_r, _env, lits, v) in rstates)
+    raised = False
+    for r in cl.stmts(ast.Raise):
+        if r.exc is None:
+            continue
+        for (env, lits) in S.at(r):
+            x = S.text(r.exc, env)
+            if is_slot(_parse(x)) and any(p and not tx.startswith("@") and exc_test_on(_parse(tx), x) for (tx, p) in lits):
+                raised = True
+    ok = sorted_out and raised
     ck.ob(R, cl.key(None, "raises-result-exception"), ok, "call() raises the exception found in its result slot" if ok else
           "call() does not raise an exception returned in its result slot: a failing (or replayed failing) call returns the exception object as a value", cl.where())
-    rets = [r for r in cl.returns() if r.value is not None]
-    okr = bool(rets) and all("call:memento_run_batch" in cl.deps(r.value) and "op:subscript" in cl.deps(r.value) for r in rets)
     ck.ob(R, cl.key(None, "returns-slot-0"), okr, "call() returns slot 0 of the one-element batch" if okr else "call() does not return the single batch slot", cl.where())
     enc = FA(ck, "storage_base.DefaultCodec.JsonExceptionStrategy.encode")
     ld = FA(ck, "storage_base.DefaultCodec.JsonExceptionStrategy.load")
-    wk = set()
-    for d in [n for n in A.walk_body(enc.node) if isinstance(n, ast.Dict)]:
-        wk |= {A.const_str(k) for k in d.keys if A.const_str(k)}
-    rk = {A.const_str(n.slice) for n in A.walk_body(ld.node) if isinstance(n, ast.Subscript) and A.const_str(n.slice)}
+    # what is written: the entries of the mapping given to json.dumps, however it is put together (display, dict(k=v),
+    # comprehension over a literal tuple of field names, filled key by key)
+    written = None
+    for c in enc.calls("dumps") + enc.calls("dump"):
+        if c.args and enc.nodes(c):
+            written = mapping_built(enc, c.args[0], enc.nodes(c)[0])
+            break
+    ck.need(written is not None, "JsonExceptionStrategy.encode: the document given to json.dumps is not understood")
+    wmap = {}
+    for (k, v, at) in written:
+        if A.const_str(k):
+            wmap[A.const_str(k)] = (v, at)
+    wk = set(wmap)
+    # what is read, and into which constructor parameter: every argument of MementoException(...) in load, followed through
+    # temporaries, unpacking, *sequence and **mapping arguments built over a literal tuple of field names
+    ctor = ld.one(ld.calls("MementoException"), "MementoException(...) in load")
+    at_c = ld.one(ld.nodes(ctor)[:1], "reachable MementoException(...) in load")
+    want_order = ["exception_name", "message", "stack_trace"]
+    fed = ctor_arguments(ld, ctor, at_c, want_order)
+    ck.need(fed is not None, "JsonExceptionStrategy.load: arguments of MementoException(...) not understood")
+    order, rk = [], set()
+    for nm in want_order:
+        key = None
+        if nm in fed:
+            (a, at) = follow_value(ld, fed[nm][0], fed[nm][1])
+            if isinstance(a, ast.Subscript):
+                (sl, _at) = follow_value(ld, a.slice, at)
+                key = A.const_str(sl)
+        order.append(key)
+        if key:
+            rk.add(key)
+    # other keyed reads of the loaded document
+    rk |= {A.const_str(n.slice) for n in A.walk_body(ld.node) if isinstance(n, ast.Subscript) and A.const_str(n.slice)}
+    rk |= {A.const_str(c.args[0]) for c in ld.calls("get") if c.args and A.const_str(c.args[0])}
     okk = wk == rk and len(wk) == 3
     ck.ob(R, enc.key(None, "exception-fields"), okk, "stored exceptions are read with the fields they are written with %s" % sorted(wk) if okk else
           "stored exception fields differ: written %s, read %s" % (sorted(wk), sorted(rk)), enc.where())
-    ctor = ld.one(ld.calls("MementoException"), "MementoException(...) in load")
-    want_order = ["exception_name", "message", "stack_trace"]
-    order = []
-    for i, nm in enumerate(want_order):
-        a = A.arg_or_kw(ctor, i, nm)
-        a = ld.expand(a) if a is not None else None
-        order.append(A.const_str(a.slice) if isinstance(a, ast.Subscript) else None)
     oko = order == want_order
     ck.ob(R, ld.key(ctor, "field-order"), oko, "name, message and stack trace are restored in their positions" if oko else
           "MementoException is rebuilt with fields in the wrong positions: %s" % order, ld.where(ctor))
     enc_obj = (enc.fi.params + ["obj", "obj"])[1]
-    msg = [k for d in [n for n in A.walk_body(enc.node) if isinstance(n, ast.Dict)] for k, v in zip(d.keys, d.values)
-           if A.const_str(k) == "message" and enc.nodes(v) and enc.xnorm(v) == enc_obj + ".message"]
+    msg = False
+    if "message" in wmap:
+        (mv, mat) = follow_value(enc, wmap["message"][0], wmap["message"][1])
+        msg = A.norm(subst(mv, {})) == enc_obj + ".message"
     ck.ob(R, enc.key(None, "message-preserved"), bool(msg), "the original message is stored" if msg else "the stored exception does not keep obj.message", enc.where())
+    # values: written by pickling exactly the object, read by unpickling
     vp = FA(ck, "storage_base.DefaultCodec.ValuePickleStrategy.encode")
     vl = FA(ck, "storage_base.DefaultCodec.ValuePickleStrategy.load")
     vp_obj = (vp.fi.params + ["obj", "obj"])[1]
-    okp = any(A.call_dotted(c) == "pickle.dumps" and c.args and vp.xnorm(c.args[0]) == vp_obj for c in vp.calls()) and \
-        any(A.call_dotted(c) == "pickle.loads" for c in vl.calls()) and all(("call:dumps" in vp.deps(r.value)) for r in vp.returns() if r.value is not None)
+    def through_alias(fa_, c):
+        """Dotted name of the callee, looking through a class- or module-level alias (`_dumps = staticmethod(partial(pickle.dumps,
+        protocol=5))` called as self._dumps(x))."""
+        d_ = A.call_dotted(c) or ""
+        f_ = c.func
+        for _ in range(3):
+            v_ = _bound_value(fa_, f_, None) if (isinstance(f_, ast.Attribute) or (isinstance(f_, ast.Name) and not fa_.df.is_local(f_.id))) else None
+            if v_ is None:
+                break
+            while isinstance(v_, ast.Call) and A.call_attr(v_) in ("staticmethod", "classmethod", "partial") and v_.args:
+                v_ = v_.args[0]
+            if A.dotted(v_) is None:
+                break
+            d_, f_ = A.dotted(v_), v_
+        return d_
+
+    pickled, sinks = [], set()
+    for c in vp.calls():
+        d = through_alias(vp, c)
+        recv = A.call_recv(c)
+        if d in ("pickle.dumps", "dumps") and c.args:
+            pickled.append((c, c.args[0], None))
+        elif d in ("pickle.dump", "dump") and len(c.args) >= 2:
+            pickled.append((c, c.args[0], c.args[1]))
+        elif A.call_attr(c) == "dump" and isinstance(recv, (ast.Call, ast.Name)) and c.args and vp.nodes(c):
+            pk = vp.expand(recv) if isinstance(recv, ast.Name) else recv
+            if isinstance(pk, ast.Call) and A.call_attr(pk) in ("Pickler", "_Pickler") and pk.args:
+                pickled.append((c, c.args[0], pk.args[0]))
+    okp = bool(pickled) and all(vp.nodes(c) and vp.xnorm(a) == vp_obj for (c, a, _s) in pickled)
+    rets_p = [r for r in vp.returns() if r.value is not None and vp.nodes(r)]
+    for r in rets_p:
+        deps = vp.deps(r.value)
+        via_value = "call:dumps" in deps or any(sk is None and ("call:%s" % A.call_attr(c)) in deps for (c, _a, sk) in pickled)
+        via_sink = any(sk is not None and vp.nodes(c) and (set(vp.deps(sk, vp.nodes(c)[0])) & deps) - {"param:self"} for (c, _a, sk) in pickled)
+        okp = okp and (via_value or via_sink)
+    okp = okp and bool(rets_p)
+
+    def unpickles(fa_):
+        for c in fa_.calls():
+            d = through_alias(fa_, c)
+            if d in ("pickle.loads", "pickle.load", "loads") or (A.call_attr(c) == "load" and isinstance(A.call_recv(c), ast.Call) and A.call_attr(A.call_recv(c)) in ("Unpickler", "_Unpickler")):
+                return True
+        return False
+
+    okl = unpickles(vl)
+    if not okl:
+        # one level of delegation to a method of the strategy (load -> decode)
+        for c in vl.calls():
+            m, _off = _own_method(ck.repo, vl.fi.cls, c, (vl.fi.params or ["self"])[0]) if vl.fi.cls is not None else (None, 0)
+            if m is not None and unpickles(FA(ck, m)):
+                okl = True
+    okp = okp and okl
     ck.ob(R, vp.key(None, "pickle-pair"), okp, "values are stored with pickle.dumps(obj) and read with pickle.loads" if okp else
           "the value strategy no longer pairs pickle.dumps(obj) with pickle.loads", vp.where())
+
+
+def follow_value(fa, e, at, depth=0):
+    """(expression, node) a local name stands for: its single plain assignment, or its element of a tuple-unpacked
+    sequence that is understood (display / comprehension over a literal sequence); other expressions are returned as is."""
+    while isinstance(e, ast.Name) and fa.df.is_local(e.id) and depth < 8 and at is not None:
+        ds = fa.df.reaching(at, e.id)
+        if len(ds) != 1:
+            break
+        d = ds[0]
+        if d.kind == "assign" and d.value is not None:
+            e, at = d.value, d.node
+        elif d.kind == "unpack" and isinstance(d.stmt, ast.Assign):
+            nxt = None
+            for t in d.stmt.targets:
+                if isinstance(t, (ast.Tuple, ast.List)):
+                    idx = [i for i, x in enumerate(t.elts) if isinstance(x, ast.Name) and x.id == e.id]
+                    elems = sequence_elements(fa, d.stmt.value, d.node)
+                    if idx and elems is not None and len(elems) == len(t.elts):
+                        nxt = elems[idx[0]]
+            if nxt is None:
+                break
+            e, at = nxt, d.node
+        else:
+            break
+        depth += 1
+    return e, at
+
+
+def ctor_arguments(fa, call, at, params):
+    """{parameter: (expression, node)} of a call to a constructor with the given positional parameters: positional and keyword
+    arguments, `*seq` and `**mapping` arguments whose elements are evident.  None when an argument is not understood."""
+    out, pos = {}, 0
+    for a in call.args:
+        if isinstance(a, ast.Starred):
+            elems = sequence_elements(fa, a.value, at)
+            if elems is None:
+                return None
+            for el in elems:
+                if pos < len(params):
+                    out[params[pos]] = (el, at)
+                pos += 1
+        else:
+            if pos < len(params):
+                out[params[pos]] = (a, at)
+            pos += 1
+    for k in call.keywords:
+        if k.arg is None:
+            ent = table_entries(fa, k.value, at)
+            if ent is None:
+                return None
+            for (kk, v) in ent:
+                if A.const_str(kk) is None:
+                    return None
+                out[A.const_str(kk)] = (v, at)
+        else:
+            out[k.arg] = (k.value, at)
+    return out
+
+
+def mapping_built(fa, expr, at):
+    """[(key, value, node)] of the mapping `expr` holds at `at`: the entries of the expression that creates it, followed (for
+    a local name) by the `name[k] = v` and `name.update(m)` statements of the function, in source order.  None if not understood."""
+    if isinstance(expr, ast.Name) and fa.df.is_local(expr.id):
+        ds = fa.df.reaching(at, expr.id)
+        if len(ds) != 1 or ds[0].kind != "assign" or ds[0].value is None:
+            return None
+        v0 = ds[0].value
+        empty = (isinstance(v0, ast.Dict) and not v0.keys) or (isinstance(v0, ast.Call) and A.call_dotted(v0) in ("dict", "OrderedDict", "collections.OrderedDict")
+                                                              and not v0.args and not v0.keywords)
+        base = [] if empty else table_entries(fa, v0, ds[0].node)
+        if base is None:
+            return None
+        out = [(k, v, ds[0].node) for (k, v) in base]
+        later = []
+        for st in A.all_stmts(fa.node):
+            ids = fa.nodes(st)
+            if not ids:
+                continue
+            if isinstance(st, ast.Assign) and len(st.targets) == 1 and isinstance(st.targets[0], ast.Subscript) \
+                    and isinstance(st.targets[0].value, ast.Name) and st.targets[0].value.id == expr.id:
+                later.append((st.lineno, [(st.targets[0].slice, st.value, ids[0])]))
+            elif isinstance(st, ast.Expr) and isinstance(st.value, ast.Call) and A.call_attr(st.value) == "update" \
+                    and isinstance(A.call_recv(st.value), ast.Name) and A.call_recv(st.value).id == expr.id:
+                c = st.value
+                ent = []
+                if c.args:
+                    e0 = table_entries(fa, c.args[0], ids[0])
+                    if e0 is None:
+                        return None
+                    ent += e0
+                ent += [(ast.Constant(value=k.arg), k.value) for k in c.keywords if k.arg is not None]
+                later.append((st.lineno, [(k, v, ids[0]) for (k, v) in ent]))
+        for (_ln, ent) in sorted(later, key=lambda x: x[0]):
+            out += ent
+        return out
+    ent = table_entries(fa, expr, at)
+    return None if ent is None else [(k, v, at) for (k, v) in ent]
 
 
 def check_frame_rule(ck, R):
@@ -1337,6 +1770,15 @@ class _Absent:
                         events += fa.nodes(n)
                     elif nm in _REMOVERS and n.args and key_ok(n.args[0]) and fa.unconditional(n):
                         events += fa.nodes(n)
+                    elif nm in _REMOVERS and n.args and key_ok(n.args[0]) and fa.nodes(n):
+                        # `self.S.pop(k) if k in self.S else <default>`: removed where held, and not held otherwise
+                        x_, up_ = n, fa.pm.get(n)
+                        while up_ is not None and not isinstance(up_, (ast.IfExp, ast.stmt)):
+                            x_, up_ = up_, fa.pm.get(up_)
+                        if isinstance(up_, ast.IfExp) and x_ is up_.body and isinstance(up_.test, ast.Compare) and len(up_.test.ops) == 1 \
+                                and isinstance(up_.test.ops[0], ast.In) and _slot_expr(up_.test.comparators[0], me) == slot \
+                                and key_ok(up_.test.left) and fa.unconditional(up_):
+                            events += fa.nodes(n)
                     elif nm == "get" and n.args and key_ok(n.args[0]) and fa.nodes(n):
                         # `self.S.get(k) is None` taken true: nothing is held for k
                         nid = fa.nodes(n)[0]
@@ -1354,6 +1796,22 @@ class _Absent:
                                 if self.decide(callee, slot, callee.params[i + off], False, depth + 1)[0]:
                                     events += fa.nodes(n)
                                     break
+            elif isinstance(n, (ast.For, ast.AsyncFor)) and isinstance(n.iter, (ast.Tuple, ast.List)) and isinstance(n.target, ast.Name) \
+                    and any(_slot_expr(x, me) == slot and isinstance(x, ast.Attribute) for x in n.iter.elts):
+                # `for held in (self.a, self.b): held.clear()`: the loop runs its body for the slot; the removal is a statement of
+                # the body that nothing before it can skip
+                for st in n.body:
+                    if isinstance(st, (ast.If, ast.Try, ast.While, ast.For, ast.Return, ast.Raise, ast.Break, ast.Continue, ast.With)):
+                        break
+                    c = st.value if isinstance(st, ast.Expr) else None
+                    if isinstance(c, ast.Call) and isinstance(A.call_recv(c), ast.Name) and A.call_recv(c).id == n.target.id:
+                        nm_ = A.call_attr(c)
+                        if nm_ == "clear" or (nm_ in _REMOVERS and c.args and key_ok(c.args[0])):
+                            events += fa.nodes(n)
+                            break
+                    if isinstance(st, ast.Delete) and any(isinstance(t, ast.Subscript) and isinstance(t.value, ast.Name) and t.value.id == n.target.id
+                                                          and key_ok(t.slice) for t in st.targets):
+                        break  # del held[k] raises where the key is absent: not an unconditional removal for every slot
             elif isinstance(n, ast.Delete):
                 for t in n.targets:
                     if isinstance(t, ast.Subscript) and _slot_expr(t.value, me) == slot and key_ok(t.slice):
@@ -1371,6 +1829,20 @@ class _Absent:
                 view = ast.Compare(left=n.left, ops=[ast.In()], comparators=[ast.Attribute(value=ast.Name(id=me, ctx=ast.Load()), attr=slot, ctx=ast.Load())])
                 absent.add((fa._literal(n, nid, True)[0], False))
                 absent.add((fa._literal(view, nid, True)[0], False))
+        # a loop over a non-empty literal (`for key in [cache_key]: self.S.pop(key, None)`) runs its body: what the leading
+        # straight-line statements of the body establish, the loop establishes
+        for lp in fa.stmts((ast.For, ast.AsyncFor)):
+            it_ = lp.iter
+            if isinstance(it_, ast.Name) and fa.nodes(lp):
+                it_ = follow_value(fa, it_, fa.nodes(lp)[0])[0]
+            if not (isinstance(it_, (ast.Tuple, ast.List)) and it_.elts and fa.nodes(lp)) or lp.orelse:
+                continue
+            for st in lp.body:
+                if isinstance(st, (ast.If, ast.Try, ast.While, ast.For, ast.Return, ast.Raise, ast.Break, ast.Continue, ast.With)):
+                    break
+                if set(fa.nodes(st)) & set(events):
+                    events += fa.nodes(lp)
+                    break
         from .cache_model import branch_filter
         edge_ok = branch_filter(fa, lambda txt, pol: (txt, pol) in absent)
         ok = cfg.must_pass(events, cfg.exit, edge_ok=edge_ok)
@@ -1419,28 +1891,110 @@ def check_forget_reaches_answers(ck, R):
         fa = FA(ck, fm)
         sme = (fm.params or ["self"])[0]
         explicit = fm.params[1:]
+        verdicts_ = []
         for src in sources:
             src_txt = "%s.%s" % (sme, src)
             events = []
-            for c in fa.calls(name):
-                r = A.call_recv(c)
-                if r is None or fa.xnorm(r) != src_txt or not fa.unconditional(c):
+            sends = [(c, A.call_recv(c), list(c.args)) for c in fa.calls(name)]
+            # `forget = operator.methodcaller("forget_x", arg)` ... `forget(self.src)` sends the same message
+            for c in fa.calls():
+                if isinstance(c.func, ast.Name) and fa.df.is_local(c.func.id) and len(c.args) == 1 and not c.keywords and fa.nodes(c):
+                    mc = fa.expand(c.func)
+                    if isinstance(mc, ast.Call) and A.call_attr(mc) == "methodcaller" and mc.args and A.const_str(mc.args[0]) == name:
+                        sends.append((c, c.args[0], list(mc.args[1:])))
+            for (c, r, sent) in sends:
+                if r is None or not fa.nodes(c) or fa.xnorm(r, fa.nodes(c)[0]) != src_txt or not fa.unconditional(c):
                     continue
                 if explicit:
                     try:
-                        if not (c.args and ("param:" + explicit[0]) in fa.deps(c.args[0])):
+                        if not (sent and ("param:" + explicit[0]) in fa.deps(sent[0], fa.nodes(c)[0])):
                             continue
                     except AnalysisError:
                         continue
                 events += fa.nodes(c)
+            # `for source in (self.a, self.b): [if source:] source.forget_x(arg)`: the loop delivers it to each of them
+            for lp in fa.stmts((ast.For, ast.AsyncFor)):
+                if not (isinstance(lp.iter, (ast.Tuple, ast.List)) and isinstance(lp.target, ast.Name) and fa.nodes(lp)
+                        and any(A.norm(x) == src_txt for x in lp.iter.elts)):
+                    continue
+                var = lp.target.id
+                body = lp.body
+                if len(body) == 1 and isinstance(body[0], ast.If) and not body[0].orelse and \
+                        A.norm(body[0].test) in (var, "%s is not None" % var):
+                    body = body[0].body  # skipped only for a source that is not configured
+                for st in body:
+                    if not isinstance(st, ast.Expr):
+                        break
+                    c = st.value
+                    if isinstance(c, ast.Call) and A.call_attr(c) == name and isinstance(A.call_recv(c), ast.Name) and A.call_recv(c).id == var:
+                        try:
+                            if not explicit or (c.args and ("param:" + explicit[0]) in fa.deps(c.args[0])):
+                                events += fa.nodes(lp)
+                        except AnalysisError:
+                            pass
+                        break
             unset = {(src_txt, False), ("%s is None" % src_txt, True)}
             edge_ok = branch_filter(fa, lambda txt, pol: (txt, pol) in unset)
             ok = bool(events) and fa.cfg.must_pass(events, fa.cfg.exit, edge_ok=edge_ok)
+            if not ok:
+                ok = _delivered_through_generic_helper(ck, bcls, fa, name, src, explicit, sme)
             wit = None if ok else fa.cfg.path(fa.cfg.entry, fa.cfg.exit, removed=events, edge_ok=edge_ok)
+            verdicts_.append((src, src_txt, ok, wit, bool(events)))
+        if not any(ok for (_s, _t, ok, _w, _e) in verdicts_) and not any(e for (_s, _t, _o, _w, e) in verdicts_):
+            # nothing is sent to any source by name here: if the operation is handed to something this rule does not follow (a
+            # helper iterating "the stores", a generator of layers), say so instead of reporting each source as skipped
+            indirect = [c for c in fa.calls() if _own_method(ck.repo, bcls, c, sme)[0] is not None and A.call_attr(c) not in CACHE_QUERIES] or \
+                [lp for lp in fa.stmts((ast.For, ast.AsyncFor)) if isinstance(lp.iter, (ast.Call, ast.Name))]
+            ck.need(not indirect, "StorageBackendBase.%s: the operation reaches the sources only through `%s`, which is not followed"
+                    % (name, A.short(indirect[0], 60) if indirect else ""))
+        for (src, src_txt, ok, wit, _e) in verdicts_:
             ck.ob(R, fa.key(None, "delivered-to:" + src), ok,
                   "%s is delivered to %s (consulted by is_memoized) on every path on which it is configured" % (name, src_txt) if ok else
                   "%s can return (path %s) without telling %s to forget, yet is_memoized consults it: the forgotten call is still reported "
                   "as memoized / served from there" % (name, fa.cfg.describe_path(wit) if wit else "?", src_txt), fa.where())
+
+
+def _delivered_through_generic_helper(ck, bcls, fa, name, src, explicit, me):
+    """The three forget operations folded into one helper that is told the operation by name:
+    `self._forget("forget_call", x)` with `getattr(self.<src>, operation)(*args)` inside.  Holds when the helper is called on every
+    path with the operation's own name (and the forgotten thing), and the helper sends `getattr(self.<src>, <that parameter>)(...)`
+    on every path on which the source is configured."""
+    from .cache_model import branch_filter
+    for c in fa.calls():
+        callee, off = _own_method(ck.repo, bcls, c, me)
+        if callee is None or callee.qual == fa.qual or not fa.unconditional(c) or not fa.nodes(c):
+            continue
+        named = [i for i, a in enumerate(c.args) if A.const_str(a) == name]
+        if not named or named[0] + off >= len(callee.params):
+            continue
+        if explicit:
+            try:
+                if not any(("param:" + explicit[0]) in fa.deps(a) for a in c.args if not isinstance(a, ast.Starred)):
+                    continue
+            except AnalysisError:
+                continue
+        if not fa.cfg.must_pass(fa.nodes(c), fa.cfg.exit):
+            continue
+        op_param = callee.params[named[0] + off]
+        cfa = FA(ck, callee)
+        cme = (callee.params or ["self"])[0]
+        src_txt = "%s.%s" % (cme, src)
+        sends = []
+        for c2 in cfa.calls():
+            g = c2.func
+            if isinstance(g, ast.Call) and isinstance(g.func, ast.Name) and g.func.id == "getattr" and len(g.args) == 2 \
+                    and isinstance(g.args[1], ast.Name) and g.args[1].id == op_param and cfa.nodes(c2) \
+                    and cfa.xnorm(g.args[0], cfa.nodes(c2)[0]) == src_txt and cfa.unconditional(c2):
+                if explicit and not c2.args:
+                    continue   # the forgotten thing is not handed on
+                sends += cfa.nodes(c2)
+        if any(isinstance(n, ast.Assign) and any(isinstance(t, ast.Name) and t.id == op_param for t in n.targets) for n in A.walk_body(callee.node)):
+            continue
+        unset = {(src_txt, False), ("%s is None" % src_txt, True)}
+        edge_ok = branch_filter(cfa, lambda txt, pol: (txt, pol) in unset)
+        if sends and cfa.cfg.must_pass(sends, cfa.cfg.exit, edge_ok=edge_ok):
+            return True
+    return False
 
 
 def check(ck):
